@@ -443,8 +443,21 @@ func checkC18(c *Ctx) {
 			}
 		}
 		var wrapStore *ssa.Store
+		var wrapCallBlock *ssa.BasicBlock // where tls.NewListener is called, when that is not the store's block (phi form)
 		for _, fs := range listenerStores(wrapFns) {
 			call, ok := an.Strip(fs.Store.Val).(*ssa.Call)
+			if !ok {
+				// `ln := listen(); if cfg != nil { ln = tls.NewListener(ln, cfg) }; s.listener = ln`: the stored value is
+				// a phi of the plain listener and the TLS listener
+				if phi, isPhi := an.Strip(fs.Store.Val).(*ssa.Phi); isPhi {
+					for _, e := range phi.Edges {
+						if ec, isC := an.Strip(e).(*ssa.Call); isC && an.CalleeIs(ec.Common(), "crypto/tls", "NewListener") {
+							call, ok = ec, true
+							wrapCallBlock = ec.Block()
+						}
+					}
+				}
+			}
 			if ok && an.CalleeIs(call.Common(), "crypto/tls", "NewListener") {
 				if wrapStore != nil {
 					R.Fail("C18-wrap", "(*Server).Run: single TLS wrap", c.pos(fs.Store), "listener wrapped twice")
@@ -498,10 +511,22 @@ func checkC18(c *Ctx) {
 			// the test that guards the wrap: in the wrap's own function its "configured" side dominates the store; or, for
 			// a wrap in a helper, a test in Run whose "configured" side dominates the helper call
 			var gd *cfgTest
+			guarded := wrapStore.Block()
+			if wrapCallBlock != nil {
+				guarded = wrapCallBlock
+			}
 			for i := range tests {
 				t := &tests[i]
-				if t.fn == h && t.withTLS.Dominates(wrapStore.Block()) {
+				if t.fn == h && t.withTLS.Dominates(guarded) {
 					gd = t
+				}
+			}
+			// phi form: with a config, the value that reaches the store is the TLS listener (every path from the
+			// "configured" side to the store passes the tls.NewListener call)
+			if gd != nil && wrapCallBlock != nil {
+				inCallBlock := func(in ssa.Instruction) bool { return in.Block() == wrapCallBlock }
+				if w := an.Search(an.Point{B: gd.withTLS, I: 0}, isInstr(wrapStore), inCallBlock); w != nil {
+					R.Fail("C18-wrap", key, c.pos(wrapStore), "with a TLS config a path stores the listener without wrapping it: "+c.trail(w))
 				}
 			}
 			if gd == nil && h != run && wrapAt != nil {
